@@ -40,6 +40,8 @@ pub enum Op {
     ValidateStored { slot: u8, change: u8, authorised: bool },
     /// probe contract names another address as caller
     ValidateAsOther { m: MRef },
+    /// the ledger advances by this many days (statuses must not decay with time)
+    AdvanceDays(u8),
 }
 
 #[derive(Clone, Debug, Serialize, Deserialize)]
@@ -57,6 +59,7 @@ fn op() -> impl Strategy<Value = Op> {
         2 => (0u8..3, mref(), prop_oneof![4 => Just(true), 1 => Just(false)]).prop_map(|(caller, m, authorised)| Op::Validate { caller, m, authorised }),
         5 => (0u8..36, 0u8..8, prop_oneof![6 => Just(true), 1 => Just(false)]).prop_map(|(slot, change, authorised)| Op::ValidateStored { slot, change, authorised }),
         1 => mref().prop_map(|m| Op::ValidateAsOther { m }),
+        1 => (1u8..90).prop_map(Op::AdvanceDays),
     ]
 }
 
@@ -108,7 +111,7 @@ impl Property for C02 {
         "C02"
     }
     fn rule(&self) -> &'static str {
-        "proptest histories (<=30 quick / <=60 thorough ops) of batched approvals (with in-batch duplicates and re-use of known ids), consumption attempts (probe contract calling as itself, accounts with/without authorisation, exact replay of a stored message or with one field changed, a contract naming another address) over pools built to collide: chains {\"\",a,ab,abc, two 70-character strings differing in the last character} x ids {\"\",c,bc,b, two 70-character strings differing in the last character}; oracle = reference map (chain,id)->NotApproved/Approved(msg)/Executed moving only forward, event trace per op, sweep of is_message_executed over all 36 pairs and is_message_approved over stored messages and one-field variants after every op. non-trivial = history re-approves an executed id, or consumes with exactly one mismatching field after an approval, or has an in-batch duplicate id, or touches two ids whose chain||id concatenations coincide"
+        "proptest histories (<=30 quick / <=60 thorough ops) of batched approvals (with in-batch duplicates and re-use of known ids), consumption attempts (probe contract calling as itself, accounts with/without authorisation, exact replay of a stored message or with one field changed, a contract naming another address) and ledger advancement by 1-89 days (<= 250 days in total; statuses must not decay) over pools built to collide: chains {\"\",a,ab,abc, two 70-character strings differing in the last character} x ids {\"\",c,bc,b, two 70-character strings differing in the last character}; oracle = reference map (chain,id)->NotApproved/Approved(msg)/Executed moving only forward, event trace per op, sweep of is_message_executed over all 36 pairs and is_message_approved over stored messages and one-field variants after every op. non-trivial = history re-approves an executed id, or consumes with exactly one mismatching field after an approval, or has an in-batch duplicate id, or touches two ids whose chain||id concatenations coincide"
     }
     fn cases(&self, tier: Tier) -> u64 {
         tier.pick(3000, 40000)
@@ -143,8 +146,9 @@ impl Property for C02 {
     }
 
     fn run(&self, case: &Case, cx: &mut Cx) -> Result<(), String> {
-        let env = new_env();
+        let env = new_env_longlived();
         let set = simple_set(1);
+        let mut days_passed: u32 = 0;
         let gw = deploy_gateway(&env, [7; 32], 0, 0, &[set.clone()]).map_err(|e| format!("setup: {}", e))?;
         let probe_id = env.register(Caller, ());
         let probe = CallerClient::new(&env, &probe_id);
@@ -159,6 +163,13 @@ impl Property for C02 {
             let gw_before = snapshot_of(&env, &w.gw.id);
             let mut touched: Vec<(u8, u8)> = vec![];
             match op {
+                Op::AdvanceDays(d) => {
+                    if days_passed + *d as u32 <= 250 {
+                        days_passed += *d as u32;
+                        advance_ledgers(&env, *d as u32 * 17280);
+                        cx.label("ledger_advanced_by_days");
+                    }
+                }
                 Op::Approve(batch) => {
                     let mut expected_new: Vec<MRef> = vec![];
                     let mut seen = std::collections::BTreeSet::new();
